@@ -2,6 +2,7 @@ package main
 
 import (
 	"fmt"
+	"io"
 	"math"
 	"sync"
 	"sync/atomic"
@@ -33,6 +34,11 @@ const (
 	// one run. The longest legitimate iteration observed used 2.0e3
 	// callbacks (Bisection halving a step down to rounding level).
 	stuckFuel = 200000
+	// runtimeLimit / runtimeSleep: Settings.Runtime of the runtime cases and
+	// the time one chosen Func call blocks. Only "elapsed >= runtimeSleep >
+	// runtimeLimit after that call returned" is ever used.
+	runtimeLimit = 20 * time.Millisecond
+	runtimeSleep = 50 * time.Millisecond
 )
 
 type harness struct {
@@ -184,8 +190,14 @@ func (h *harness) runCaseWith(cs *caseSpec, bm *builtMethod) *builtMethod {
 		FuncEvaluations: cs.s.limF, GradEvaluations: cs.s.limG, HessEvaluations: cs.s.limH,
 		MajorIterations: cs.s.limMaj, GradientThreshold: cs.s.gradThr, Concurrent: cs.s.concurrent,
 	}
-	if cs.s.runtime {
+	switch cs.s.runtime {
+	case 1:
 		set.Runtime = time.Nanosecond
+	case 2:
+		set.Runtime = runtimeLimit
+		led.sleepAt, led.sleepDur = cs.s.sleepAt, runtimeSleep
+	case 3:
+		set.Runtime = time.Hour
 	}
 	var clog *convLog
 	switch cs.s.conv {
@@ -199,7 +211,9 @@ func (h *harness) runCaseWith(cs *caseSpec, bm *builtMethod) *builtMethod {
 		set.Converger = clog
 	}
 	var rec *recorder
-	if cs.s.rec != 0 {
+	if cs.s.rec == -3 {
+		set.Recorder = &optimize.Printer{Writer: io.Discard, HeadingInterval: 3}
+	} else if cs.s.rec != 0 {
 		rec = &recorder{}
 		if cs.s.rec > 0 || cs.s.rec == -1 {
 			rec.failAt = cs.s.rec
@@ -281,7 +295,7 @@ func (cs *caseSpec) pathClass() string {
 // Problem.Status / Recorder stop, or a function-convergence rule with a
 // positive iteration count (the documented default included).
 func (cs *caseSpec) unlimitedIsInDomain() bool {
-	if cs.s.limF > 0 || cs.s.limMaj > 0 || cs.s.runtime || cs.s.cbK > 0 || cs.s.rec > 0 {
+	if cs.s.limF > 0 || cs.s.limMaj > 0 || cs.s.runtimeStops() || cs.s.cbK > 0 || cs.s.rec > 0 {
 		return true
 	}
 	switch cs.s.conv {
@@ -311,8 +325,8 @@ func (cs *caseSpec) classKey() string {
 	if cs.s.limMaj > 0 {
 		lim += "M"
 	}
-	if cs.s.runtime {
-		lim += "R"
+	if cs.s.runtime != 0 {
+		lim += fmt.Sprint("R", cs.s.runtime)
 	}
 	opt := ""
 	if cs.m.nmParams || cs.m.cmaChol || cs.m.cmaStep || cs.m.simplex {
@@ -626,6 +640,27 @@ afterCoherence:
 		h.mu.Unlock()
 	}
 
+	// ---- Settings.Runtime, judged only through a guaranteed elapsed time ----
+	if cs.s.runtime == 2 && led.expired.Load() {
+		if res.Stats.Runtime < runtimeSleep {
+			h.viol(cs, out, "Stats.Runtime-below-guaranteed-elapsed-time", fmt.Sprintf("Result.Stats.Runtime=%v although one evaluation alone blocked for %v", res.Stats.Runtime, runtimeSleep))
+		}
+		if !cs.m.local() {
+			// Every task announces a MajorIteration after each evaluation
+			// (CmaEsChol: after each generation), where the limit is checked.
+			slack := 2 * eff
+			if cs.m.kind == mCMA {
+				slack += cs.m.effPop(o.dim)
+			}
+			if n := int(led.startedAfter.Load()); n > slack {
+				h.viol(cs, out, "evaluations-after-Runtime-expired", fmt.Sprintf("%d Func calls were started after an evaluation had made the run exceed Settings.Runtime=%v (slack %d with %d tasks); status %v", n, runtimeLimit, slack, eff, res.Status))
+			}
+		}
+		if !serial && cs.group == "runtime" && res.Status != optimize.RuntimeLimit && res.Status != optimize.MethodConverge {
+			h.viol(cs, out, "RuntimeLimit-not-reported", fmt.Sprintf("the run exceeded Settings.Runtime=%v for certain after Func call %d and no other stopping rule was configured (NeverTerminate, FuncEvaluations=%d as a safety net), but the status is %v after %d Func calls", runtimeLimit, cs.s.sleepAt, cs.s.limF, res.Status, nF))
+		}
+	}
+
 	// ---- status names the condition that stopped the run ----
 	if serial && len(tr.post) == 1 {
 		h.replaySerial(cs, led, bm, tr, cb, rec, clog, out)
@@ -639,7 +674,7 @@ afterCoherence:
 	}
 
 	// ---- strictly convex quadratics: the unique minimizer is reached ----
-	if o.quad != nil && cs.m.usesGrad() && cs.pathClass() == "natural" && cs.s.conv != 3 {
+	if o.quad != nil && cs.m.usesGrad() && cs.pathClass() == "natural" && cs.s.conv != 3 && !(cs.m.effLS() == 3 && cs.m.lsParam == 2) {
 		h.checkQuadratic(cs, led, bm, out, f0)
 	}
 }
@@ -823,9 +858,16 @@ func (h *harness) replaySerial(cs *caseSpec, led *ledger, bm *builtMethod, tr *t
 						adm = append(adm, admissible{optimize.IterationLimit, nil, "MajorIterations limit"})
 						must = true
 					}
-					if cs.s.runtime {
+					switch {
+					case cs.s.runtime == 1:
 						adm = append(adm, admissible{optimize.RuntimeLimit, nil, "Runtime limit of 1ns"})
 						must = true
+					case cs.s.runtime == 2 && nF >= cs.s.sleepAt:
+						adm = append(adm, admissible{optimize.RuntimeLimit, nil, "Runtime limit of 20ms after an evaluation that took 50ms"})
+						must = true
+					case cs.s.runtime == 2:
+						// may already have expired on a slow machine
+						adm = append(adm, admissible{optimize.RuntimeLimit, nil, "Runtime limit of 20ms"})
 					}
 				} else if cs.s.conv == 0 && !must {
 					// the default converger may or may not have fired at this
@@ -835,9 +877,16 @@ func (h *harness) replaySerial(cs *caseSpec, led *ledger, bm *builtMethod, tr *t
 						adm = append(adm, admissible{optimize.IterationLimit, nil, "MajorIterations limit"})
 						must = true
 					}
-					if cs.s.runtime {
+					switch {
+					case cs.s.runtime == 1:
 						adm = append(adm, admissible{optimize.RuntimeLimit, nil, "Runtime limit of 1ns"})
 						must = true
+					case cs.s.runtime == 2 && nF >= cs.s.sleepAt:
+						adm = append(adm, admissible{optimize.RuntimeLimit, nil, "Runtime limit of 20ms after an evaluation that took 50ms"})
+						must = true
+					case cs.s.runtime == 2:
+						// may already have expired on a slow machine
+						adm = append(adm, admissible{optimize.RuntimeLimit, nil, "Runtime limit of 20ms"})
 					}
 				}
 			}
@@ -1052,8 +1101,8 @@ func (h *harness) statusImplications(cs *caseSpec, led *ledger, bm *builtMethod,
 			bad(fmt.Sprintf("limit %d, %d major iterations", cs.s.limMaj, nMaj))
 		}
 	case optimize.RuntimeLimit:
-		if !cs.s.runtime {
-			bad("no Runtime limit set")
+		if !cs.s.runtimeStops() {
+			bad("no Runtime limit that can have expired is set")
 		}
 	case optimize.FunctionConvergence:
 		if cs.s.conv != 0 && cs.s.conv != 3 {
